@@ -30,12 +30,24 @@ func CaptureResponse(w http.ResponseWriter) *ResponseCapture {
 
 // WriteHeader records the value of the status code before writing it.
 func (w *ResponseCapture) WriteHeader(code int) {
-	w.StatusCode = code
+	if !w.wroteHeader() {
+		// the underlying writer ignores superfluous calls
+		w.StatusCode = code
+	}
 	w.ResponseWriter.WriteHeader(code)
+}
+
+// wroteHeader returns true if a final (non 1xx) status code has been captured.
+func (w *ResponseCapture) wroteHeader() bool {
+	return w.StatusCode >= 200
 }
 
 // Write computes the written len and stores it in ContentLength.
 func (w *ResponseCapture) Write(b []byte) (int, error) {
+	if !w.wroteHeader() {
+		// writing the body sends an implicit 200 status
+		w.StatusCode = http.StatusOK
+	}
 	n, err := w.ResponseWriter.Write(b)
 	w.ContentLength += n
 	return n, err
